@@ -28,6 +28,9 @@ class View:
         self.html_blocks = []
         self.paragraphs = []  # (first, last_excl, depth)
         self.links = []  # (line_of_paragraph_start, href, text, is_image)
+        self.top_blocks = []  # (type, first_line, last_line) of depth-0 blocks in order
+        self.ol_lists = []  # top-level ordered lists: [(line, number, text_after_marker)]
+        self.li_items = []  # (line, depth_of_containers, ordered?)
         self.code_lines = set()  # content + marker lines of any code block
         self.code_content_lines = set()
         self.fence_marker_lines = set()
@@ -48,6 +51,19 @@ class View:
             elif t.type == "list_item_open" and ul_depth and t.markup in "-+*":
                 is_start = i > 0 and toks[i - 1].type == "bullet_list_open"
                 self.ul_items.append((t.map[0] + 1, t.markup, ul_depth, depth, is_start))
+            if t.map and t.level == 0 and t.type.endswith(("_open", "fence", "code_block", "hr", "html_block")) or (t.map and t.level == 0 and t.type in ("fence", "code_block", "hr", "html_block")):
+                self.top_blocks.append((t.type, t.map[0] + 1, t.map[1]))
+            if t.type == "ordered_list_open" and t.level == 0:
+                items = []
+                j = i + 1
+                lvl = 0
+                while j < len(toks) and not (toks[j].type == "ordered_list_close" and toks[j].level == 0):
+                    if toks[j].type == "list_item_open" and toks[j].level == 1:
+                        items.append((toks[j].map[0] + 1, toks[j].info, toks[j].map[1]))
+                    j += 1
+                self.ol_lists.append(items)
+            if t.type == "list_item_open":
+                self.li_items.append((t.map[0] + 1, t.level, t.markup, t.map[1]))
             if t.map and first_block is None and t.type not in ("blockquote_open", "bullet_list_open", "ordered_list_open", "list_item_open"):
                 first_block = t
             if t.type == "heading_open":
@@ -233,6 +249,8 @@ def md019(v, cfg):
             m = re.match(r"^ {0,3}(#{1,6})([ \t]*)(\S?)", line)
             if not m or not m.group(3):
                 continue
+            if re.search(r"#\s*$", line):
+                continue  # closed ATX headings are md021's
             ws = m.group(2)
             if "\t" in ws:
                 continue
@@ -488,6 +506,163 @@ def md045(v, cfg):
     return must, must_not
 
 
+# ---------------------------------------------------------------------------------------------- blank lines around blocks
+def _blank(v, ln):
+    return 1 <= ln <= v.n and v.line(ln).strip() == ""
+
+
+def _quasi_blank(v, ln):
+    """a line that is blank once quote markers are removed (`>`): whether it counts as a Blank Line for the
+    blank-lines-around rules is not documented"""
+    return 1 <= ln <= v.n and v.line(ln).strip() != "" and v.line(ln).strip(" >\t") == ""
+
+
+def md022(v, cfg):
+    """blank lines above/below a heading differ from the configured number (default 1); top-level ATX headings only"""
+    above, below = cfg.get("lines_above", 1), cfg.get("lines_below", 1)
+    must, must_not = set(), set()
+    last_real = v.n - 1 if v.lines[-1] == "" else v.n
+    for lv, a, b, mk, tx, d, _ in v.headings:
+        if d != 0 or not mk.startswith("#") or b != a:
+            continue
+        ok_above = ok_below = None
+        if a == 1:
+            ok_above = True
+        else:
+            k = 0
+            ln = a - 1
+            while ln >= 1 and _blank(v, ln):
+                k += 1
+                ln -= 1
+            if ln >= 1:
+                ok_above = k == above
+        if a == last_real:
+            ok_below = None  # end of document: not documented
+        else:
+            k = 0
+            ln = a + 1
+            while ln <= last_real and _blank(v, ln):
+                k += 1
+                ln += 1
+            if ln <= last_real:
+                ok_below = k == below
+        if ok_above is False or ok_below is False:
+            must.add(a)
+        elif ok_above is True and ok_below is True:
+            must_not.add(a)
+    must_not |= all_lines(v) - v.heading_lines
+    return must, must_not
+
+
+def md031(v, cfg):
+    """fenced code block not surrounded by blank lines (top-level fences; start/end of document exempt)"""
+    must, must_not = set(), set()
+    last_real = v.n - 1 if v.lines[-1] == "" else v.n
+    marker = set()
+    for a, b, mk, info, d in v.fences:
+        marker.add(a)
+        if d != 0:
+            continue
+        if a == 1 or _blank(v, a - 1):
+            must_not.add(a)
+        elif not _quasi_blank(v, a - 1):
+            must.add(a)
+        closed = b in v.fence_marker_lines and b != a
+        if closed:
+            marker.add(b)
+            if b >= last_real or _blank(v, b + 1):
+                must_not.add(b)
+            elif not _quasi_blank(v, b + 1):
+                must.add(b)
+    amb = must & must_not
+    must -= amb
+    must_not -= amb
+    must_not |= all_lines(v) - v.code_lines
+    return must, must_not
+
+
+def md032(v, cfg):
+    """list not preceded by a blank line (top-level lists; start of document exempt); the 'followed by' side is
+    judged only as MUST-NOT-free (lazy continuation makes the last line of a list a matter of structure)"""
+    must, must_not = set(), set()
+    list_lines = set()
+    for typ, a, b in v.top_blocks:
+        if typ in ("bullet_list_open", "ordered_list_open"):
+            list_lines.update(range(a, b + 1))
+            list_lines.update((a - 1, b + 1))  # the lines adjacent to a list: which of them carries the report is not documented
+            prev_is_list = any(t2 in ("bullet_list_open", "ordered_list_open") and b2 == a - 1 for t2, a2, b2 in v.top_blocks)
+            if a == 1 or _blank(v, a - 1) or _quasi_blank(v, a - 1) or prev_is_list:
+                pass  # (a list directly after another list: not documented)
+            else:
+                must.add(a)
+    for ln, lvl, mk, end in v.li_items:
+        list_lines.update(range(ln - 1, end + 2))
+    must_not |= all_lines(v) - list_lines - must
+    return must, must_not
+
+
+def md029(v, cfg):
+    """ordered list item numbering (default one_or_ordered); top-level lists"""
+    if cfg.get("style", "one_or_ordered") != "one_or_ordered":
+        return set(), set()
+    must, must_not = set(), set()
+    ol_lines = set()
+    for items in v.ol_lists:
+        nums = []
+        for ln, info, end in items:
+            ol_lines.add(ln)
+            try:
+                nums.append(int(info))
+            except ValueError:
+                nums = None
+                break
+        if not nums:
+            continue
+        first = nums[0]
+        if first not in (0, 1):
+            must.add(items[0][0])
+            continue
+        all_ones = all(x == first for x in nums) and first == 1
+        ordered = all(x == first + i for i, x in enumerate(nums))
+        if all_ones or ordered:
+            must_not.update(ln for ln, _, _ in items)
+            continue
+        for i, x in enumerate(nums):
+            if i and x != 1 and x != first + i and x != first:
+                must.add(items[i][0])
+    multi = {ln for ln, c in collections_counter(ln for ln, *_ in v.li_items).items() if c > 1}
+    must -= multi
+    must_not -= multi
+    must_not |= all_lines(v) - {ln for ln, *_ in v.li_items}
+    return must, must_not
+
+
+def md030(v, cfg):
+    """spaces between list marker and text differ from 1 (default); top-level single-line items"""
+    must, must_not = set(), set()
+    item_lines = {ln for ln, *_ in v.li_items}
+    per_line = collections_counter(ln for ln, *_ in v.li_items)
+    for ln, lvl, mk, end in v.li_items:
+        if lvl != 1 or per_line[ln] != 1 or end != ln:
+            continue
+        m = re.match(r"^ {0,3}(?:[-+*]|\d{1,9}[.)])( *)(\S?)", v.line(ln))
+        if not m or not m.group(2):
+            continue
+        k = len(m.group(1))
+        if k == 1:
+            must_not.add(ln)
+        elif 2 <= k <= 4:
+            must.add(ln)
+    must_not |= all_lines(v) - item_lines
+    return must, must_not
+
+
+def collections_counter(it):
+    import collections
+
+    return collections.Counter(it)
+
+
 # rule id -> (reference, [configuration variants]); the first variant is the default configuration
 REFS = {
     "md001": (md001, [{}]),
@@ -499,10 +674,15 @@ REFS = {
                       {"strict": True, "line_length": 30, "heading_line_length": 30, "code_block_line_length": 8},
                       {"strict": True, "line_length": 10, "headings": False, "code_blocks": False}]),
     "md019": (md019, [{}]),
+    "md022": (md022, [{}]),
     "md023": (md023, [{}]),
     "md024": (md024, [{}]),
     "md025": (md025, [{}, {"level": 2}]),
     "md026": (md026, [{}, {"punctuation": "?x"}]),
+    "md029": (md029, [{}]),
+    "md030": (md030, [{}]),
+    "md031": (md031, [{}]),
+    "md032": (md032, [{}]),
     "md035": (md035, [{}, {"style": "---"}, {"style": "***"}]),
     "md040": (md040, [{}]),
     "md041": (md041, [{}]),
